@@ -36,6 +36,9 @@ func (x *Exec) execInstr(fr *Frame, in ssa.Instruction, st *State) {
 		p := &Place{Arr: heapKeyObj(t), Idx: []string{ref}, ElemT: t}
 		x.storePlace(st, p, x.s.zero(t))
 		fr.vals[i] = V{T: i.Type(), S: ref}
+		if !i.Heap && x.specMode == 0 {
+			x.protected = append(x.protected, protEntry{key: heapKeyObj(t), t: t, ref: ref})
+		}
 	case *ssa.BinOp:
 		fr.vals[i] = x.binop(fr, st, i.Op, x.value(fr, i.X), x.value(fr, i.Y), i.Type(), i.Pos())
 	case *ssa.UnOp:
